@@ -537,23 +537,24 @@ def mutate_text(rng, s):
 class Prop(Check):
     ID = "C12"
     LEAN_MODULE = "TextxVerif.Props.C12"
-    THEOREMS_FULL = [
+    THEOREMS = [
         "RrelSyntax.C12_roundtrip",
         "RrelSyntax.C12_eval",
         "RrelSyntax.C12_roundtrip_seq",
-        "RrelSyntax.C12_parsed_partial",
         "RrelSyntax.C12_trailing_backslash_false",
         "RrelSyntax.C12_pinned_flags_false",
         "RrelSyntax.C12_pinned_quote_false",
     ]
-    THEOREMS = []
     DRIVER = "Drivers/RrelSyntax.lean"
     QUICK_CASES = 1400
     THOROUGH_CASES = 40000
     ENUM_QUICK = 3
     ENUM_THOROUGH = 4
+    FLAGS_ALL_QUICK = 2
+    FLAGS_ALL_THOROUGH = 3
     RULE = ("complete: every tree with <= 3 (quick) / <= 4 (thorough) elements over {parent(T), a, ~b, 'x'~a, leading . and .., "
-            "brackets, star} with flags '', m, p, mp; random: trees of depth <= 5 over 16 names (ASCII, Unicode, 'parent…'), "
+            "brackets, star}; flags '', m, p, mp on each tree with <= 2 (quick) / <= 3 (thorough) elements, in rotation on the "
+            "larger ones; random: trees of depth <= 5 over 16 names (ASCII, Unicode, 'parent…'), "
             "23 + random fixed names with quotes / backslashes / whitespace, 9 flag strings; a stream of ill-formed trees; texts = "
             "hand-written list + printed trees with whitespace / character mutations.  non-trivial = a well-formed expression "
             "(built or parsed) with a flag, a fixed name, nesting or >= 2 elements whose printed form was parsed again")
@@ -571,9 +572,11 @@ class Prop(Check):
     def gen(self, rng, n, tier):
         cases = []
         nmax = self.ENUM_QUICK if tier == "quick" else self.ENUM_THOROUGH
+        allflags = ("", "m", "p", "mp")
         for k in range(1, nmax + 1):
-            for s in enum_seqs(k):
-                for fl in ("", "m", "p", "mp"):
+            for i, s in enumerate(enum_seqs(k)):
+                # all four flag combinations up to FLAGS_ALL elements, above that one flag per tree in rotation
+                for fl in (allflags if k <= (self.FLAGS_ALL_QUICK if tier == "quick" else self.FLAGS_ALL_THOROUGH) else (allflags[i % 4],)):
                     cases.append({"kind": "tree", "tree": {"flags": fl, "seq": s}, "origin": "enum"})
         self.n_enum = len(cases)
         g = TreeGen(rng.fork("trees"))
